@@ -42,12 +42,24 @@ Lit(v, elems) == /\ arrays' = Append(arrays, NewArr(elems, Len(elems), Len(elems
 SetNil(v) == sv' = [sv EXCEPT ![v] = NilS] /\ UNCHANGED arrays
 Assign(v, src) == sv' = [sv EXCEPT ![v] = sv[src]] /\ UNCHANGED arrays
 
-\* s[i:j] with 0 <= i <= j <= len(s) (the drivers do not slice beyond the length)
-SubOK(src, i, j) == 0 <= i /\ i <= j /\ j <= sv[src].len
-Sub(v, src, i, j) == /\ SubOK(src, i, j)
-                     /\ sv' = [sv EXCEPT ![v] = IF sv[src].arr = 0 THEN NilS
-                                                ELSE [arr |-> sv[src].arr, off |-> sv[src].off + i, len |-> j - i]]
-                     /\ UNCHANGED arrays
+\* s[i:j] with 0 <= i <= j <= cap(s).  Within the length this always succeeds.  Beyond the length it
+\* succeeds iff the backing array is large enough, of which only lo <= cap < hi is known: certain when
+\* off + j <= lo, impossible when off + j >= hi, otherwise either outcome is admissible (and a success
+\* sharpens lo).  Positions of the array that were never written hold the zero value.
+SubOK(src, i, j) == /\ 0 <= i /\ i <= j
+                    /\ IF sv[src].arr = 0 THEN j = 0 ELSE sv[src].off + j <= arrays[sv[src].arr].lo
+SubPossible(src, i, j) == /\ 0 <= i /\ i <= j
+                          /\ IF sv[src].arr = 0 THEN j = 0 ELSE sv[src].off + j < arrays[sv[src].arr].hi
+Sub(v, src, i, j) ==
+    /\ SubPossible(src, i, j)
+    /\ sv' = [sv EXCEPT ![v] = IF sv[src].arr = 0 THEN NilS
+                               ELSE [arr |-> sv[src].arr, off |-> sv[src].off + i, len |-> j - i]]
+    /\ IF sv[src].arr = 0 THEN UNCHANGED arrays
+       ELSE LET a == arrays[sv[src].arr]
+                end == sv[src].off + j
+            IN arrays' = [arrays EXCEPT ![sv[src].arr] =
+                   [elems |-> IF end > Len(a.elems) THEN a.elems \o Zeros(end - Len(a.elems)) ELSE a.elems,
+                    lo |-> IF end > a.lo THEN end ELSE a.lo, hi |-> a.hi]]
 
 WriteOK(v, i) == 0 <= i /\ i < sv[v].len
 Write(v, i, x) == /\ WriteOK(v, i)
